@@ -52,4 +52,62 @@ def Unforgeable (P : Prims Msg H K Tag) (r s : View Msg K Tag) : Prop :=
 /-- replace position `i` of a transcript -/
 def alter (l : List Msg) (i : Nat) (m : Msg) : List Msg := l.set i m
 
+
+/-! ### what the endpoints report, as functions of the transcript
+
+The transcript starts ClientHello, ServerHello, EncryptedExtensions (RFC 8446 §2;
+`AQ.Props.C03.order_matches_rfc` for tls.py).  Everything the two QUIC
+endpoints report about the handshake is read from (client) or was written into
+(server) one of these three messages:
+
+  cipher suite, resumption (pre_shared_key selected)      ServerHello
+  ALPN protocol, 0-RTT accepted (early_data)              EncryptedExtensions
+  client transport parameters incl. version_information,
+  0-RTT offered (early_data)                              ClientHello extensions
+  server transport parameters incl. version_information   EncryptedExtensions extensions
+
+(QUIC transport parameters travel in the `quic_transport_parameters` extension,
+so they are part of the transcript, RFC 9001 §8.2.) -/
+
+structure Fields (Msg Suite Alpn TP : Type) where
+  cipherSuite : Msg → Suite
+  pskSelected : Msg → Bool
+  alpn : Msg → Alpn
+  earlyData : Msg → Bool
+  transportParams : Msg → TP
+
+structure Report (Suite Alpn TP : Type) where
+  cipherSuite : Suite
+  resumed : Bool
+  alpn : Alpn
+  earlyDataOffered : Bool
+  earlyDataAccepted : Bool
+  clientTransportParams : TP
+  serverTransportParams : TP
+
+def report {Suite Alpn TP : Type} (F : Fields Msg Suite Alpn TP) : List Msg → Option (Report Suite Alpn TP)
+  | ch :: sh :: ee :: _ =>
+    some ⟨F.cipherSuite sh, F.pskSelected sh, F.alpn ee, F.earlyData ch, F.earlyData ee,
+          F.transportParams ch, F.transportParams ee⟩
+  | _ => none
+
+/-- the secrets of RFC 8446 §7.1 as functions of the input keying material
+    ((EC)DHE output, PSK) and of transcript prefixes: early (ClientHello),
+    handshake (..ServerHello), application (..server Finished), resumption
+    (..client Finished) -/
+structure Secrets (Sec : Type) where
+  early : Sec
+  handshake : Sec
+  application : Sec
+  resumption : Sec
+
+/-- `t` = the endpoint's transcript up to (excluding) the client Finished, `n` =
+    number of messages before the server Finished, `cfin` = the client Finished -/
+def secrets {IKM PSK Sec : Type} (P : Prims Msg H K Tag) (kdf : IKM → PSK → H → Nat → Sec)
+    (ikm : IKM) (psk : PSK) (t : List Msg) (n : Nat) (cfin : Msg) : Secrets Sec :=
+  ⟨kdf ikm psk (P.hash (t.take 1)) 0,
+   kdf ikm psk (P.hash (t.take 2)) 1,
+   kdf ikm psk (P.hash (t.take (n + 1))) 2,
+   kdf ikm psk (P.hash (t ++ [cfin])) 3⟩
+
 end AQ.TlsSym
